@@ -290,10 +290,18 @@ class NP:
         if isinstance(obj, _np.ndarray) and (dtype is None or obj.dtype == object):
             if obj.dtype.kind == "f":
                 return self._obj(obj)
-            return obj
+            # like the real np.asarray: an array subclass (FeArray) is returned as a base-class view
+            return obj.view(_np.ndarray) if type(obj) is not _np.ndarray else obj
         return self.array(obj, dtype=dtype)
 
-    asanyarray = asarray
+    def asanyarray(self, obj, dtype=None, **k):
+        if isinstance(obj, _np.ndarray) and (dtype is None or obj.dtype == object) and obj.dtype.kind != "f":
+            return obj
+        out = self.array(obj, dtype=dtype)
+        if isinstance(obj, _np.ndarray) and type(obj) is not _np.ndarray and out.shape == obj.shape:
+            return out.view(type(obj))
+        return out
+
     ascontiguousarray = asarray
 
     def copy(self, a):
